@@ -124,7 +124,7 @@ class Result:
         s.routes = []; s.reached = {}; s.stats = {}; s.wall = 0.0; s.funcs = []; s.samples = []; s.asserts = 0; s.models_used = []
     def ok(s): return not s.bugs and not s.inconclusive
 
-def run_harness(ll, entry, params=None, setup=None, on_end=None, env_models=None, witness=None, eng_opts=None, args=(), max_bugs=8, allow_throw=None, time_limit=None, concrete=None):
+def run_harness(ll, entry, params=None, setup=None, on_end=None, env_models=None, witness=None, eng_opts=None, args=(), max_bugs=8, allow_throw=None, time_limit=None, concrete=None, nsamples=3):
     """Symbolically execute harness entry `entry` of module `ll` over all paths.
     params: dict of concrete harness parameters (read by models such as verif_len)
     Returns Result."""
@@ -157,6 +157,7 @@ def run_harness(ll, entry, params=None, setup=None, on_end=None, env_models=None
         if on_end: return on_end(eng, out, st_)
         return None
     results = eng.explore(st, on_end=end, time_limit=time_limit)
+    returned = []
     for out, s_ in results:
         d = describe(out)
         key = d if out[0] not in ('bug', 'inconclusive') else d[:200]
@@ -172,10 +173,15 @@ def run_harness(ll, entry, params=None, setup=None, on_end=None, env_models=None
                                  'choices': [[str(k), v[0]] for k, v in s_.decisions.items() if isinstance(k, str)]})
         elif out[0] == 'inconclusive':
             if len(res.inconclusive) < max_bugs: res.inconclusive.append({'kind': out[1].kind, 'msg': out[1].msg})
-        elif len(res.samples) < 3:
+        else: returned.append((d, s_))
+    # samples of completed paths (evenly spread over the exploration order): evidence, and inputs for native validation runs
+    if returned:
+        stride = max(1, len(returned) // max(1, nsamples))
+        for d, s_ in returned[::stride][:nsamples]:
             try:
                 eng.ensure_model(s_)
-                res.samples.append({'outcome': d, 'inputs': model_inputs(s_, s_.model)[:24], 'steps': s_.steps})
+                res.samples.append({'outcome': d, 'inputs': [x for x in model_inputs(s_, s_.model) if x['kind'] != 'env'][:64], 'steps': s_.steps,
+                                    'reached': [e[1] for e in s_.log if e[0] == 'reach']})
             except E.Inconclusive: pass
     res.known_hits = {}
     for kid, hits in eng.known_hits.items():
@@ -220,11 +226,34 @@ def build_native(name, extra_src=(), libs=('-lz',), sanitize=True, tag=''):
         if r.returncode: raise RuntimeError('native link failed (with stubs):\n' + r.stderr[-4000:])
     return exe
 
+NATIVE_LIB = os.path.join(BUILD, 'nativelib')
+def build_native_lib():
+    """the whole library built from /repo's current working tree (cmake, system SQLite), for replays through the public API"""
+    os.makedirs(NATIVE_LIB, exist_ok=True)
+    if not os.path.exists(os.path.join(NATIVE_LIB, 'build.ninja')):
+        r = subprocess.run(['cmake', '-G', 'Ninja', '-S', REPO, '-B', NATIVE_LIB, '-DCMAKE_BUILD_TYPE=RelWithDebInfo', '-DSYSTEM_SQLITE=ON', '-DBUILD_TESTING=OFF',
+                            '-DCMAKE_CXX_FLAGS=-Wno-error'], capture_output=True, text=True)
+        if r.returncode: raise RuntimeError('cmake configure failed:\n' + (r.stdout + r.stderr)[-3000:])
+    r = subprocess.run(['cmake', '--build', NATIVE_LIB, '-j', '12'], capture_output=True, text=True)
+    if r.returncode: raise RuntimeError('native library build failed:\n' + (r.stdout + r.stderr)[-3000:])
+    return NATIVE_LIB
+def build_native_public(name, tag=''):
+    """harness/<name> compiled with -DVERIF_NATIVE against the freshly built library (public API only) and the real SQLite"""
+    lib = build_native_lib()
+    exe = os.path.join(BUILD, os.path.splitext(name)[0] + tag + '.pub')
+    cmd = ['g++', '-std=c++17', '-O1', '-g', '-DVERIF_NATIVE', '-I' + os.path.join(VERIF, 'harness'), '-I' + os.path.join(REPO, 'include'), '-I' + os.path.join(lib, 'include'),
+           os.path.join(VERIF, 'harness', name), os.path.join(VERIF, 'harness', 'verif_native.cpp'), '-o', exe, '-rdynamic', '-L' + lib, '-ldjinterop', '-Wl,-rpath,' + lib, '-ldl']
+    r = subprocess.run(cmd, capture_output=True, text=True)
+    if r.returncode: raise RuntimeError('native (public API) build failed:\n' + r.stderr[-4000:])
+    return exe
+
 def write_replay(path, inputs, meta=None):
     """inputs: list of {'bits','value',...}; plain text 'bits value' lines + a JSON sidecar"""
     os.makedirs(os.path.dirname(path), exist_ok=True)
     with open(path, 'w') as f:
-        for i in inputs: f.write('%d %d\n' % (i['bits'], i['value']))
+        for i in inputs:
+            if i.get('kind') == 'env': continue          # values invented by environment models are not harness inputs
+            f.write('%d %d\n' % (i['bits'], i['value']))
     if meta is not None:
         json.dump(meta, open(path + '.json', 'w'), indent=1)
 
